@@ -283,7 +283,8 @@ def exec (env : Env F P Err) : St → XS F P Err → R F P Err
     | some i, some j, .val [x, y, z] =>
       match env.core.dt i j x y z with
       | .ok (x, y, z) => liftEV s (assignAll s outs [x, y, z])
-      | .error e => failWith s outs e
+      | .error (.err e) => failWith s outs e
+      | .error (.panic f) => .panic s f      -- a callee of datumTransform panics: the call panics
     | some _, some _, .panic f => .panic s f
     | _, _, _ => .stuck
   | .t3 a b outs args, s =>
